@@ -1191,6 +1191,27 @@ pub fn c09(v: &View) -> Vec<Violation> {
             }
         }
     }
+    // a tell that had to wait is accepted at the very instant a slot is freed, i.e. when the actor
+    // takes a message (permits are only released by the receiver): no polling delay, no back-off
+    for o in v.sends() {
+        let (how, mid, _) = o.send().unwrap();
+        if !how.is_tell() || how.is_blocking() || !matches!(o.res, Some(Res::Ok)) {
+            continue;
+        }
+        let Some(e) = o.e_t else { continue };
+        if e == o.b_t {
+            continue;
+        }
+        let av = &v.actors[o.a];
+        let freed = av.hooks.iter().any(|h| h.1 == e && matches!(h.2, HookEv::HBegin(_) | HookEv::StopBegin(_)));
+        if !freed {
+            out.push(viol(
+                "C09",
+                "accepted-later-than-slot-free",
+                format!("{how:?} of message {mid} to actor {} waited from t={} and was accepted at t={e}, an instant at which the actor took nothing from its mailbox", o.a, o.b_t),
+            ));
+        }
+    }
     // a send fails with Send only once the actor has begun to end (never because the mailbox is full)
     for o in v.sends() {
         if matches!(o.res, Some(Res::ErrSend)) {
